@@ -699,9 +699,8 @@ fn parse_time(s: &str, converter: &Converter) -> Result<u32, ParseTimeError> {
     let r = parse_time_with_units(s, converter);
     // if any error, try to fall back to a full float parse
     if r.is_err() {
-        let minutes = s.parse::<f64>().map(|m| m.round() as u32);
-        if let Ok(minutes) = minutes {
-            return Ok(minutes);
+        if let Ok(minutes) = s.parse::<f64>() {
+            return minutes_to_u32(minutes);
         }
     }
     // otherwise return the result whatever it was
@@ -720,6 +719,8 @@ pub(crate) enum ParseTimeError {
     ParseFloatError(#[from] ParseFloatError),
     #[error("An empty value is not valid")]
     Empty,
+    #[error("The value is out of range")]
+    OutOfRange,
 }
 
 fn parse_common_time_format(s: &str) -> Option<u32> {
@@ -781,7 +782,16 @@ fn parse_time_with_units(s: &str, converter: &Converter) -> Result<u32, ParseTim
         let number = number.parse::<f64>()?;
         total += to_minutes(number, unit)?;
     }
-    Ok(total.round() as u32)
+    minutes_to_u32(total)
+}
+
+fn minutes_to_u32(minutes: f64) -> Result<u32, ParseTimeError> {
+    let rounded = minutes.round();
+    if minutes >= 0.0 && rounded <= u32::MAX as f64 {
+        Ok(rounded as u32)
+    } else {
+        Err(ParseTimeError::OutOfRange)
+    }
 }
 
 fn dynamic_time_units(
